@@ -33,8 +33,9 @@ VARIABLES l, run, driver,
           dispatcher, \* parblock: the tid that opens destination files (0 = none yet)
           nworkers,   \* --workers of the run (0 = not recorded)
           liveSet, live, maxLive,   \* destination handles open now (set, count) and the peak of the count
+          copiers,    \* tids that issued a data-copy call on a destination file
           drift       \* set of drift descriptions for this run
-vars == <<l, run, driver, stage, opener, finBy, finStep, cloned, inflight, dispatcher, nworkers, liveSet, live, maxLive, drift>>
+vars == <<l, run, driver, stage, opener, finBy, finStep, cloned, inflight, dispatcher, nworkers, liveSet, live, maxLive, copiers, drift>>
 
 \* XcpParblock!OpenBound: handles <= Q + W + 1 (Q = 128 queued block jobs, W running, one in the dispatcher's hands);
 \* XcpParfile: one handle per worker
@@ -44,7 +45,7 @@ HandleBound == IF driver = "parblock" THEN PoolQueue + nworkers + 1 ELSE nworker
 Empty == [x \in {} |-> 0]
 Init == /\ l = 1 /\ run = "" /\ driver = "" /\ stage = Empty /\ opener = Empty /\ finBy = Empty /\ finStep = Empty
         /\ cloned = {} /\ inflight = {} /\ dispatcher = 0 /\ drift = {}
-        /\ nworkers = 0 /\ liveSet = {} /\ live = 0 /\ maxLive = 0
+        /\ nworkers = 0 /\ liveSet = {} /\ live = 0 /\ maxLive = 0 /\ copiers = {}
 
 Upd(f, k, v) == [x \in DOMAIN f \cup {k} |-> IF x = k THEN v ELSE f[x]]
 Known(p) == p \in DOMAIN stage
@@ -75,6 +76,7 @@ Event(r) ==
   /\ liveSet' = IF opens THEN liveSet \cup {p} ELSE IF closes THEN liveSet \ {p} ELSE liveSet
   /\ live' = IF opens THEN live + 1 ELSE IF closes THEN live - 1 ELSE live
   /\ maxLive' = IF opens /\ live + 1 > maxLive THEN live + 1 ELSE maxLive
+  /\ copiers' = IF isCopyCall THEN copiers \cup {r.tid} ELSE copiers
   /\ stage' = IF isOpenCreate THEN Upd(stage, p, "opened")
               ELSE IF isTrunc /\ st = "opened" THEN Upd(stage, p, "trunc")
               ELSE IF isTrunc /\ st = "trunc" THEN Upd(stage, p, "alloc")
@@ -109,13 +111,14 @@ Step ==
      IF r.ev = "reset"
        THEN /\ run' = r.run /\ driver' = r.driver /\ stage' = Empty /\ opener' = Empty /\ finBy' = Empty /\ finStep' = Empty
             /\ cloned' = {} /\ inflight' = {} /\ dispatcher' = 0 /\ drift' = {}
-            /\ nworkers' = r.workers /\ liveSet' = {} /\ live' = 0 /\ maxLive' = 0
+            /\ nworkers' = r.workers /\ liveSet' = {} /\ live' = 0 /\ maxLive' = 0 /\ copiers' = {}
      ELSE IF r.ev = "end"
        THEN /\ PrintT(<<"LIFE", ToJson([run |-> run,
                                         drift |-> SetToSeq(drift \cup D(r.exit = 0 /\ ~r.partial /\ \E p \in DOMAIN stage : stage[p] # "closed", "a destination file was not taken through to close")
-                                                                 \cup D(nworkers > 0 /\ maxLive > HandleBound, "more destination handles open at once than the control-plane model allows (OpenBound)")),
+                                                                 \cup D(nworkers > 0 /\ maxLive > HandleBound, "more destination handles open at once than the control-plane model allows (OpenBound)")
+                                                                 \cup D(nworkers > 0 /\ Cardinality(copiers) > nworkers, "more copying threads than --workers")),
                                         files |-> Cardinality(DOMAIN stage), maxLive |-> maxLive, bound |-> HandleBound])>>)
-            /\ UNCHANGED <<run, driver, stage, opener, finBy, finStep, cloned, inflight, dispatcher, nworkers, liveSet, live, maxLive, drift>>
+            /\ UNCHANGED <<run, driver, stage, opener, finBy, finStep, cloned, inflight, dispatcher, nworkers, liveSet, live, maxLive, copiers, drift>>
      ELSE Event(r)
 Spec == Init /\ [][Step]_vars
 AllRead == TLCGet("stats").diameter - 1 = Len(Rec)
